@@ -19,3 +19,5 @@ def run(ck):
                       "each result then mutated in place (operands must not change); plus adaptive walks with 20% in-place calls; "
                       "the frame clause compares the full observable state of every non-target register around every call")
     ck.conform(progs)
+    # the repository's own suite, traced: frame clause (with block checksums) on every call the tests make
+    ck.suite_trace(intfill=False)
